@@ -609,6 +609,19 @@ theorem path_rpc_roundtrip {A : Type} (env : PathEnv A) (p : Path A) (hc : PathC
     pathFromRpc env (pathToRpc env p) p.src p.dst = .ok p :=
   path_roundtrip_of_canon env p hc
 
+/-- **RPC → path → RPC → path is stable**: a path obtained from an RPC message round-trips exactly, provided
+the message is `RpcSane` — expiration seconds within `0..=i64::MAX`, latencies within the wire range with
+normalised nanoseconds (|nanos| < 10⁹), link types that are not aliased by `Unknown(value as u8)` — and the
+socket-address codec re-parses what it prints.  The three excluded classes are real (open findings
+`expiration-above-i64`, `linktype-unknown-alias`; denormalised nanoseconds are only exercised by the harness). -/
+theorem path_rpc_idempotent {A : Type} (env : PathEnv A) (r : RPath) (src dst : Nat) (p : Path A)
+    (h : pathFromRpc env r src dst = .ok p) (hs : RpcSane r)
+    (haddr : ∀ s a, env.parseAddr s = some a → env.parseAddr (env.showAddr a) = some a) :
+    pathFromRpc env (pathToRpc env p) src dst = .ok p := by
+  obtain ⟨hc, h1, h2⟩ := path_from_rpc_canon env r src dst p h hs haddr
+  have := path_roundtrip_of_canon env p hc
+  rwa [h1, h2] at this
+
 /-- which link types survive `to_i32` → `from_i32`: all but `Unknown(0..=3)` and `Unknown(≥ 256)` -/
 theorem link_canon_iff (t : LinkType) :
     linkFromI32 (linkToI32 t) = t ↔
